@@ -54,6 +54,22 @@ pub struct Wire {
 /// Produce the wire image of the planned messages with the real blocking sender writing into
 /// an unbounded pipe (single party, direct back-end).
 pub fn wire_of<M: ZooMsg + ?Sized>(plan: &Arc<Plan>) -> Result<Wire, String> {
+    if cfg!(miri) || std::env::var("FLATSIM_WIRE_DIRECT").is_ok() {
+        // Under Miri the sender's IoBuffer would hand uninitialised padding bytes to the harness
+        // (AlignedBytes::new does not initialise); the harness compares and mutates frames, so
+        // for the UB tier the frames are emplaced into an initialised scratch buffer instead.
+        let cap = 2 * plan.max_send.max(M::MIN_SIZE);
+        let mut frames = Vec::new();
+        let mut vals = Vec::new();
+        for mp in &plan.msgs {
+            let mut buf = AlignedBytes::new(cap, M::ALIGN);
+            buf.fill(0);
+            let (size, _, val) = crate::party::build_in::<M>(&mut buf, mp).map_err(|e| format!("emplace failed: {:?}", e))?;
+            frames.push(buf[..size].to_vec());
+            vals.push(val);
+        }
+        return Ok(Wire { frames, vals });
+    }
     let knobs = Knobs::benign(1 << 30);
     let mut w = World::new(Decider::from_tape(Default::default()), knobs, false);
     w.prop = "C06";
@@ -95,6 +111,31 @@ fn setup<M: ZooMsg + ?Sized>(dec: &mut Decider, stats: &mut Stats) -> Result<Set
     let mut plan = make_plan::<M>(dec, stats, NSpec::Exactly(p as u32 + 2), 2);
     plan.retain_p = 0;
     let plan = Arc::new(plan);
+    if let Some((val, _)) = plan.anomalies.first() {
+        // A freshly emplaced value did not validate in the buffer it was emplaced into.  If its
+        // first size() bytes validate, this is the extension clause of C06 failing on the
+        // suffix "whatever the spare bytes of the buffer hold".
+        let cap = 2 * plan.max_send.max(M::MIN_SIZE);
+        let mut buf = AlignedBytes::new(cap, M::ALIGN);
+        buf.fill(0xA5);
+        if let Ok(Ok(size)) = guarded(|| M::emplace_val(&mut buf, val).map(|m| m.size())) {
+            if size <= cap {
+                let m = crate::val::Acopy::new(&buf[..size], M::ALIGN);
+                let whole = guarded(|| M::validate(&buf));
+                if matches!(guarded(|| M::validate(&m)), Ok(Ok(()))) {
+                    if let Ok(Err(e)) = whole {
+                        return Err(format!(
+                            "VIOLATION:extension-validate|rejected|validate|the {}-byte image of {} validates, but followed by the spare bytes of its buffer (0xA5...) it is rejected: {:?}@{}",
+                            size,
+                            val.short(),
+                            e.kind,
+                            e.pos
+                        ));
+                    }
+                }
+            }
+        }
+    }
     if plan.msgs.len() != p + 2 {
         return Err("plan produced fewer messages than requested".into());
     }
@@ -158,7 +199,7 @@ fn viol(oracle: &str, kind: &str, site: &str, detail: String) -> Option<Violatio
 fn check_validate<M: ZooMsg + ?Sized>(target: &[u8], val: &Val, pad_start: usize, cut: Option<usize>, ext: Option<&[u8]>, stats: &mut Stats) -> Option<Violation> {
     let n = target.len();
     if let Some(k) = cut {
-        let bytes = AlignedBytes::from_slice(&target[..k], M::ALIGN.max(1));
+        let bytes = crate::val::Acopy::new(&target[..k], M::ALIGN);
         let r = guarded(|| M::validate(&bytes).map(|_| unsafe { M::from_bytes_unchecked(&bytes) }.read()));
         match r {
             Err(c) => return viol("prefix-validate", "panic", &c.site(), format!("validate panicked on the first {} of {} bytes: {}", k, n, c.describe())),
@@ -178,7 +219,7 @@ fn check_validate<M: ZooMsg + ?Sized>(target: &[u8], val: &Val, pad_start: usize
     if let Some(sfx) = ext {
         let mut all = target.to_vec();
         all.extend_from_slice(sfx);
-        let bytes = AlignedBytes::from_slice(&all, M::ALIGN.max(1));
+        let bytes = crate::val::Acopy::new(&all, M::ALIGN);
         let r = guarded(|| {
             M::validate(&bytes).map(|_| {
                 let m = unsafe { M::from_bytes_unchecked(&bytes) };
@@ -206,7 +247,15 @@ pub fn run_c06<M: ZooMsg + ?Sized>(sc: &Scenario, keep_log: bool) -> RunOutput {
     let mut stats: Stats = [0; P::_COUNT as usize];
     let st = match guarded(|| setup::<M>(&mut dec, &mut stats)) {
         Ok(Ok(s)) => s,
-        Ok(Err(e)) => return trivial_output(dec, stats, Some(e), None),
+        Ok(Err(e)) => {
+            if let Some(rest) = e.strip_prefix("VIOLATION:") {
+                let parts: Vec<&str> = rest.splitn(4, '|').collect();
+                if parts.len() == 4 {
+                    return trivial_output(dec, stats, None, viol(parts[0], parts[1], parts[2], parts[3].to_string()));
+                }
+            }
+            return trivial_output(dec, stats, Some(e), None);
+        }
         Err(c) => return trivial_output(dec, stats, None, viol("setup", "panic", &c.site(), format!("building / sending the messages panicked: {}", c.describe()))),
     };
     let p = st.p;
